@@ -2,14 +2,20 @@
 from vlib import core, text_oracles
 
 # PrintSpec: the printer writes exactly the message's slices, in order, through its 2056-byte buffer (C19_printed_eq_written, C13_parts_bytes)
-MODS = ['S4V.Props.SyslSpec', 'S4V.Props.LinesSpec', 'S4V.Props.CacheSpec', 'S4V.Props.PrintSpec']
+MODS = ['S4V.Props.SyslSpec', 'S4V.Props.LinesSpec', 'S4V.Props.CacheSpec', 'S4V.Props.SyslCacheSpec', 'S4V.Props.PrintSpec']
 LEVEL_NOTE = ("Proved for every parser P, every byte string and every block size: lines tile the file (lines_partition, findLine_spec), messages "
               "(a timestamped line + following lines) are contiguous, start at the first timestamped line and end at the last byte (messages_partition), "
               "find_sysline returns the message containing the offset (findSysline_spec) and the streaming loop emits every message exactly once in file order "
               "(streamAll_unfiltered). Models tied to the code by in-process differential runs of LineReader / SyslineReader (random access, warm caches, drops, gz) "
-              "and of the block-zero gate; the printer writes exactly the message's parts in order through its buffer (PrintSpec: C13_parts_bytes, C19_printed_eq_written; component prt); the binary's stdout is compared with the file suffix. The gate is bs-dependent: known findings F1/F2.")
+              "and of the block-zero gate. The SyslineReader's own stored state (syslines, syslines_by_range, the find_sysline LRU; lookup order and invalidation "
+              "regenerated from syslinereader.rs as Gen.SyslCache) is modelled and proved sound for every history of finds, in-block finds, drops, clears and removes "
+              "(SyslCacheSpec: findSyslineCached_sound - never a wrong message; runOps_transparent_nodrop; streaming_discipline: the find-then-drop pattern of "
+              "exec_syslogprocessor is answered exactly), tied by component `syslc` (one real SyslineReader per history, LRU on and off). Two latent library defects outside the binary's "
+              "access pattern are proved as counter-models and reproduced on the real reader (find after drop of the same message panics; an in-block find at a continuation "
+              "offset poisons the LRU). The printer writes exactly the message's parts in order through its buffer (PrintSpec: C13_parts_bytes, C19_printed_eq_written; component prt); the binary's stdout is compared with the file suffix. The gate is bs-dependent: known findings F1/F2.")
 ASSUME = ["which lines carry a timestamp (regex + chrono) is a parameter P of the theorems; generated inputs make the real patterns agree with the driver's P",
-          "caches of LineReader/SyslineReader and drop_data are validated by call histories, not proved transparent",
+          "SyslineReader cache transparency is proved for the histories the binary produces (forward finds with drops behind them) and for drop-free histories; for arbitrary histories "
+          "only soundness-or-panic holds (transparent_full_false); completion of the in-block walk is an observed input bit of the cached model",
           "printing: the model of print_sysline_* (parts, 2056-byte buffer) is shared with C13/C19; its macro bodies are regenerated from printers.rs (Gen.Print) and it is tied by component `prt` (real PrinterLogMessage on real Syslines)"]
 
 
@@ -21,8 +27,8 @@ def oracle(ctx):
 
 
 def check(ctx):
-    return core.standard_check(ctx, ['Blocks', 'Filter', 'Consts', 'Print'], MODS,
-                               [('sysl', 1500, 20000), ('line', 800, 8000), ('gate', 150, 2000), ('proc', 400, 6000), ('prt', 600, 8000)], oracle, LEVEL_NOTE, ASSUME)
+    return core.standard_check(ctx, ['Blocks', 'Filter', 'Consts', 'Print', 'SyslCache'], MODS,
+                               [('sysl', 1500, 20000), ('syslc', 6000, 60000), ('line', 800, 8000), ('gate', 150, 2000), ('proc', 400, 6000), ('prt', 600, 8000)], oracle, LEVEL_NOTE, ASSUME)
 
 
 def replay(ctx, data):
